@@ -269,7 +269,7 @@ def main() -> int:
             ck.sample({'shape': {k: shape[k] for k in ('scope', 'pattern', 'widths', 'alias_slots', 'ref_slots', 'kinds')}, 'route': route, 'paths': r['paths']})
     ck.engine('SP', shapes=nshapes, paths=paths, wall_s=round(time.time() - t0, 1))
     ck.bound('shapes', f'{nshapes}: 4 scopes x 5 patterns x (one position of width 2' + (', or 3, or two of width 2' if ck.tier == 'thorough' else '') + ') x <= 2 aliased alternatives x <= '
-             + ('2' if ck.tier == 'thorough' else '1') + ' referencing alternatives x 7 reference placements (direct, quantifier body, quantifier domain, unused variable, nested quantifier, plain quantifier, quantifier next to a free reference); one position of width 3 with aliases on its alternatives x 4 construction routes')
+             + ('2' if ck.tier == 'thorough' else '1') + ' referencing alternatives x 10 reference placements (direct, quantifier body, quantifier domain, unused variable, nested quantifier, plain quantifier, quantifier next to a free reference, index-only reference, 4th argument of a variadic call, the same under a quantifier); one position of width 3 with aliases on its alternatives x 5 construction routes (parser callbacks, public constructors, but() on patterns, but() on both, but() on the alternatives of a disjunction that has already been sanity-checked)')
     ck.bound('names', 'ALL alias / reference / variable / channel names symbolic: every equality pattern between them (unbounded name space)')
     ck.coverage['evaluations'] = paths
     ck.coverage['distinct_nontrivial'] = nshapes
